@@ -5,7 +5,7 @@ strictly most frequent phrase, and once the single interval over the whole range
 `trim_paths` discards every other path (the single interval *contains* each of them), so no competing
 segmentation is ever scored against it.
 -/
-namespace Chewing
+namespace Chewing.Learn
 
 theorem bestPhraseGo_top (x : Text × Nat) (es : List (Text × Nat)) :
     ∀ (best : Option (Text × Nat)),
@@ -99,6 +99,66 @@ theorem firstConversion_direct (I : PInterval) (rest : List Path)
   rw [trimPaths_direct I rest (fun c hc => pathContains_direct I c (h c hc))]
   rfl
 
+/-! ### `shortest_path` takes the direct edge -/
+
+theorem scanEdges_direct (len : Nat) (d : PInterval) (hd : d.stop = len) (pre post : List PInterval)
+    (hpre : ∀ e ∈ pre, e.stop ≠ len) :
+    ∀ (parent : Parents) (queue : List Nat), parent.get? len = none →
+      ∃ p' q', scanEdges (fun _ _ => false) len (pre ++ d :: post) parent queue = (p', q', true) ∧ p'.get? len = some d := by
+  induction pre with
+  | nil =>
+    intro parent queue hp
+    simp only [List.nil_append, scanEdges, Bool.false_eq_true, if_false, hd, hp, Option.isNone_none, if_true]
+    exact ⟨_, _, rfl, by simp [Parents.get?]⟩
+  | cons e es ih =>
+    intro parent queue hp
+    have he : e.stop ≠ len := hpre e (List.mem_cons_self ..)
+    simp only [List.cons_append, scanEdges, Bool.false_eq_true, if_false, he]
+    apply ih (fun x hx => hpre x (List.mem_cons_of_mem _ hx))
+    split
+    · simp only [Parents.get?, List.find?]
+      have : decide (e.stop = len) = false := by simp [he]
+      rw [this]
+      exact hp
+    · exact hp
+
+theorem split_first {d : PInterval} {es : List PInterval} (hmem : d ∈ es) :
+    ∃ pre post, es = pre ++ d :: post ∧ d ∉ pre := by
+  induction es with
+  | nil => cases hmem
+  | cons a r ih =>
+    by_cases ha : a = d
+    · exact ⟨[], r, by rw [ha]; rfl, by simp⟩
+    · have hm : d ∈ r := by
+        rcases List.mem_cons.mp hmem with h | h
+        · exact absurd h.symm ha
+        · exact h
+      obtain ⟨pre, post, e1, e2⟩ := ih hm
+      refine ⟨a :: pre, post, by rw [e1]; rfl, ?_⟩
+      intro h
+      rcases List.mem_cons.mp h with h | h
+      · exact ha h.symm
+      · exact e2 h
+
+/-- with no removed edges, if node 0 has an edge `d` to the sink and it is the only one ending there, the
+    breadth-first shortest path from 0 is `[d]` -/
+theorem shortestPath_direct (graph : List (List PInterval)) (len : Nat) (d : PInterval) (es : List PInterval)
+    (hg : graph[0]? = some es) (hmem : d ∈ es) (hs : d.start = 0) (hd : d.stop = len) (hlen : 0 < len)
+    (huniq : ∀ e ∈ es, e.stop = len → e = d) :
+    shortestPath graph (fun _ _ => false) 0 len = some [d] := by
+  obtain ⟨pre, post, hsplit, hnot⟩ := split_first hmem
+  have hpre : ∀ e ∈ pre, e.stop ≠ len := by
+    intro e he h
+    have : e = d := huniq e (by rw [hsplit]; exact List.mem_append_left _ he) h
+    exact hnot (this ▸ he)
+  obtain ⟨p', q', hscan, hp'⟩ := scanEdges_direct len d hd pre post hpre [] [] rfl
+  unfold shortestPath
+  have hb : bfs graph (fun _ _ => false) len (len + 2) [0] [] = p' := by
+    simp only [bfs, hg, Option.getD_some, hsplit, hscan, if_true]
+  rw [hb]
+  have hne : ¬ len = 0 := by omega
+  simp only [walkBack, hne, if_false, hp', hs, if_true]
+
 /-! ### Without trimming: the score proviso (DESIGN §8 C08) -/
 
 theorem insertDesc_head (p : Path) (l : List Path) (d : Path)
@@ -179,4 +239,4 @@ where
           · exact Or.inl h
           · exact Or.inr (Or.inr h)
 
-end Chewing
+end Chewing.Learn
